@@ -87,7 +87,71 @@ fn panic_at(counter: &AtomicUsize, k: usize) {
 
 // ------------------------------------------------------------------------------------------ maps
 impl<K: KeyT, V: ValT> MapWorld<K, V> {
+    /// a >= 1000: a parallel drain that is created and dropped without being driven (clears the map), and clones
+    /// of the borrowing parallel iterators.
+    fn op_par_extra(&mut self, si: usize, op: &Op) -> VResult {
+        let which = (op.a - 1000).rem_euclid(2);
+        let full: Vec<ME> = self.slots[si].model.sorted();
+        let size0 = self.map(si).allocation_size();
+        let class = format!("par/extra{which}");
+        let me = |k: &K, v: &V| ME { kid: k.id(), ks: k.serial(), v: v.val(), vs: v.serial() };
+        install(op);
+        if which == 0 {
+            let m = self.slots[si].map.as_mut().unwrap();
+            let out = self.ctx.call(op, || drop(m.par_drain()));
+            finish_schedule(&mut self.ctx);
+            if !matches!(out, Out::Ok(())) {
+                vio!(self, class, "dropping an undriven par_drain panicked");
+            }
+            self.ctx.drain_callback_violations()?;
+            {
+                let s = sim();
+                for e in &full {
+                    if (K::HAS_SERIAL && s.serial_state[e.ks as usize] == 1) || (V::HAS_SERIAL && s.serial_state[e.vs as usize] == 1) {
+                        drop(s);
+                        vio!(self, "ledger/leak", "after an undriven par_drain was dropped entry ({}, {}) is still live", e.kid, e.v);
+                    }
+                }
+            }
+            self.slots[si].model.e.clear();
+            let m = self.map(si);
+            if m.len() != 0 || m.allocation_size() != size0 || self.ctx.last_alloc_calls_sim() != 0 {
+                vio!(self, class, "after an undriven par_drain was dropped the map has len() {} and allocation {} (was {size0})", m.len(), m.allocation_size());
+            }
+        } else {
+            let m = self.slots[si].map.as_ref().unwrap();
+            let out = self.ctx.call(op, || {
+                let it = m.par_iter();
+                let c = it.clone();
+                let a: Vec<ME> = it.map(|(k, v)| me(k, v)).collect();
+                let b: Vec<ME> = c.map(|(k, v)| me(k, v)).collect();
+                let ks = m.par_keys();
+                let kc = ks.clone();
+                let vs = m.par_values();
+                let vc = vs.clone();
+                let d: Vec<(u32, u32)> = kc.map(|k| (k.id(), k.serial())).collect();
+                let e: Vec<(u32, u32)> = vc.map(|v| (v.val(), v.serial())).collect();
+                drop((ks, vs));
+                (a, b, d, e)
+            });
+            finish_schedule(&mut self.ctx);
+            match out {
+                Out::Ok((a, b, d, e)) => {
+                    let keys_vals_ok = sorted(d) == sorted(full.iter().map(|x| (x.kid, x.ks)).collect::<Vec<_>>()) && sorted(e) == sorted(full.iter().map(|x| (x.v, x.vs)).collect::<Vec<_>>());
+                    if sorted(a) != full || sorted(b) != full || !keys_vals_ok {
+                        vio!(self, class, "a cloned parallel iterator did not deliver exactly the map's {} entries", full.len());
+                    }
+                }
+                _ => vio!(self, class, "a cloned parallel iterator panicked"),
+            }
+        }
+        Ok(())
+    }
+
     pub(crate) fn op_par(&mut self, si: usize, ti: usize, op: &Op) -> VResult {
+        if op.a >= 1000 {
+            return self.op_par_extra(si, op);
+        }
         let which = op.a.rem_euclid(16);
         let k_stop = op.b.max(0) as usize;
         let model = self.slots[si].model.clone();
@@ -356,7 +420,58 @@ impl crate::ctx::RunCtx {
 
 // ------------------------------------------------------------------------------------------ sets
 impl<K: KeyT> SetWorld<K> {
+    fn op_par_extra(&mut self, si: usize, op: &Op) -> VResult {
+        let which = (op.a - 1000).rem_euclid(2);
+        let full: Vec<SE> = sorted(self.slots[si].model.clone());
+        let size0 = self.set(si).allocation_size();
+        let class = format!("par/setextra{which}");
+        install(op);
+        if which == 0 {
+            let s = self.slots[si].set.as_mut().unwrap();
+            let out = self.ctx.call(op, || drop(s.par_drain()));
+            finish_schedule(&mut self.ctx);
+            if !matches!(out, Out::Ok(())) {
+                vio!(self, class, "dropping an undriven par_drain panicked");
+            }
+            self.ctx.drain_callback_violations()?;
+            if K::HAS_SERIAL {
+                let s = sim();
+                for e in &full {
+                    if s.serial_state[e.1 as usize] == 1 {
+                        drop(s);
+                        vio!(self, "ledger/leak", "after an undriven par_drain was dropped element {} is still live", e.0);
+                    }
+                }
+            }
+            self.slots[si].model.clear();
+            let st = self.set(si);
+            if st.len() != 0 || st.allocation_size() != size0 || self.ctx.last_alloc_calls_sim() != 0 {
+                vio!(self, class, "after an undriven par_drain was dropped the set has len() {} and allocation {} (was {size0})", st.len(), st.allocation_size());
+            }
+        } else {
+            let s = self.slots[si].set.as_ref().unwrap();
+            let out = self.ctx.call(op, || {
+                // (the set's ParIter is not Clone: two independent traversals)
+                let it = s.par_iter();
+                let c = s.par_iter();
+                let a: Vec<SE> = it.map(|k| (k.id(), k.serial())).collect();
+                let b: Vec<SE> = c.map(|k| (k.id(), k.serial())).collect();
+                (a, b)
+            });
+            finish_schedule(&mut self.ctx);
+            match out {
+                Out::Ok((a, b)) if sorted(a.clone()) == full && sorted(b.clone()) == full => {}
+                Out::Ok((a, b)) => vio!(self, class, "a cloned parallel iterator delivered {} / {} elements, the set holds {}", a.len(), b.len(), full.len()),
+                _ => vio!(self, class, "a cloned parallel iterator panicked"),
+            }
+        }
+        Ok(())
+    }
+
     pub(crate) fn op_par(&mut self, si: usize, ti: usize, op: &Op) -> VResult {
+        if op.a >= 1000 {
+            return self.op_par_extra(si, op);
+        }
         let which = op.a.rem_euclid(16);
         let k_stop = op.b.max(0) as usize;
         let model: Vec<SE> = self.slots[si].model.clone();
@@ -523,7 +638,58 @@ impl<K: KeyT> SetWorld<K> {
 
 // ------------------------------------------------------------------------------------------ tables
 impl<E: ElemT> TableWorld<E> {
+    fn op_par_extra(&mut self, si: usize, op: &Op) -> VResult {
+        let which = (op.a - 1000).rem_euclid(2);
+        let full: Vec<TE> = sorted(self.slots[si].model.clone());
+        let size0 = self.tab(si).allocation_size();
+        let class = format!("par/tableextra{which}");
+        let te = |e: &E| TE { id: e.id(), serial: e.serial(), hash: e.hash(), payload: e.payload() };
+        install(op);
+        if which == 0 {
+            let t = self.slots[si].t.as_mut().unwrap();
+            let out = self.ctx.call(op, || drop(t.par_drain()));
+            finish_schedule(&mut self.ctx);
+            if !matches!(out, Out::Ok(())) {
+                vio!(self, class, "dropping an undriven par_drain panicked");
+            }
+            self.ctx.drain_callback_violations()?;
+            if E::HAS_SERIAL {
+                let s = sim();
+                for e in &full {
+                    if s.serial_state[e.serial as usize] == 1 {
+                        drop(s);
+                        vio!(self, "ledger/leak", "after an undriven par_drain was dropped element {} is still live", e.id);
+                    }
+                }
+            }
+            self.slots[si].model.clear();
+            let t = self.tab(si);
+            if t.len() != 0 || t.allocation_size() != size0 || self.ctx.last_alloc_calls_sim() != 0 {
+                vio!(self, class, "after an undriven par_drain was dropped the table has len() {} and allocation {} (was {size0})", t.len(), t.allocation_size());
+            }
+        } else {
+            let t = self.slots[si].t.as_ref().unwrap();
+            let out = self.ctx.call(op, || {
+                let it = t.par_iter();
+                let c = it.clone();
+                let a: Vec<TE> = it.map(|e| te(e)).collect();
+                let b: Vec<TE> = c.map(|e| te(e)).collect();
+                (a, b)
+            });
+            finish_schedule(&mut self.ctx);
+            match out {
+                Out::Ok((a, b)) if sorted(a.clone()) == full && sorted(b.clone()) == full => {}
+                Out::Ok((a, b)) => vio!(self, class, "a cloned parallel iterator delivered {} / {} elements, the table holds {}", a.len(), b.len(), full.len()),
+                _ => vio!(self, class, "a cloned parallel iterator panicked"),
+            }
+        }
+        Ok(())
+    }
+
     pub(crate) fn op_par(&mut self, si: usize, op: &Op) -> VResult {
+        if op.a >= 1000 {
+            return self.op_par_extra(si, op);
+        }
         let which = op.a.rem_euclid(6);
         let k_stop = op.b.max(0) as usize;
         let full: Vec<TE> = sorted(self.slots[si].model.clone());
